@@ -141,7 +141,7 @@ func ReplayC16Atomic() {
 	// points at which the model's disk already holds original or complete
 	// content have no native counterpart here.
 	crashAt, _ := nd.Lookup("crashAt")
-	if frBit("openErr") || !(frBit("shortWrite") || crashAt == 2) {
+	if frBit("openErr") || !frBit("match_f0_c0") || !(frBit("shortWrite") || crashAt == 2) {
 		fmt.Println("REPLAY-ERROR: nothing to realise")
 		return
 	}
